@@ -1146,6 +1146,7 @@ struct Prog {
         stack_text += (stack_text.empty() ? "" : " / ") + std::string(cls);
     }
     std::string stack_text;
+    bool four_addr = false;
     RawPDU* raw(bool nonempty = false) {
         size_t n = gen_len(s, max_payload);
         if (nonempty && !n) n = 1;
@@ -1221,7 +1222,18 @@ struct Prog {
             case 3: add(new Loopback(), "Loopback"); network(false, false, true); closed = true; break;
             case 4: {
                 if (s.chance(30)) add(new RadioTap(), "RadioTap");
-                if (s.boolean()) add(new Dot11Data(), "Dot11Data"); else add(new Dot11QoSData(), "Dot11QoSData");
+                {
+                    const bool qos = !s.boolean();
+                    Dot11Data* d = qos ? new Dot11QoSData() : new Dot11Data();
+                    // a third of the data frames are four-address (WDS) frames from the start: both DS bits and address 4;
+                    // decided by the RadioTap draw above and the frame kind (no further choice byte)
+                    if ((stack_text.empty()) == qos) {
+                        d->to_ds(1); d->from_ds(1);
+                        d->addr4(Dot11::address_type("02:04:06:08:0a:0c"));
+                        four_addr = true;
+                    }
+                    add(d, qos ? "Dot11QoSData" : "Dot11Data");
+                }
                 add(new SNAP(), "SNAP");
                 ether_like = true;
                 break;
